@@ -5,7 +5,8 @@
    writing (VLOG_NO_ACTIVE = none), the next id; the live tables, each a list of (key, stored value,
    ghost: the user value written) with its recorded `oldest_vlog_file_id`; the version index (the
    entries of every flushed table, when enabled); the block cache of resolved values, keyed by
-   (file id, offset) only; the table sets held by open readers (ghost: nothing looks at them).
+   (file id, offset), each with the checksum of the pointer it was read for; the table sets held by
+   open readers (ghost: nothing looks at them).
 
    Transcribed from /repo:
      VLog::append (src/vlog.rs)            vs_append   no writer or `size >= max` (operator generated): fsync the
@@ -34,9 +35,19 @@
                                            vs_reopen   the active file is fsynced; the directory is re-scanned: highest
                                                        id = active writer (appends continue at its end), next = highest
                                                        + 1 (no file: no writer, next = VLOG_FIRST_FILE_ID); clean-up
-     ValueLocation::resolve_value, VLog::get  vs_resolve, vs_get   block cache first (no check at all on a hit), then the
-                                                       file, then the checks of Codec/VlogPtr.v vlog_read, then the
-                                                       value is cached
+     ValueLocation::resolve_value, VLog::get  vs_resolve, vs_get   block cache first; a hit is served only when the cached
+                                                       checksum and the value length equal the pointer's
+                                                       (VLOG_CACHE_HIT_CHECKED, machine parameter hck; before the
+                                                       repair of F41 — hck = false — ANY hit was served, no check at
+                                                       all); otherwise the file, the checks of Codec/VlogPtr.v
+                                                       vlog_read, then the value is cached with the pointer's checksum
+     BlockCache::insert_vlog / get_vlog_entry (src/cache.rs)  vcache, vcache_get   one entry per (file id, offset): an insert
+                                                       replaces the entry (the model prepends, the lookup takes the first);
+                                                       eviction is not modelled (a model hit may be a miss in the code:
+                                                       the answer is then the file's, which every theorem covers as well)
+   Damage (property C16): ds_step adds two steps to the machine — DFiles replaces the directory content and the writer
+   ids by ANYTHING (files cut short, appended to again from the cut position, rewritten, removed), DGet reads through
+   ANY pointer (e.g. one stored in an older table) — so that statements can quantify over every such history.
    An operation the model refuses (vs_step = None): a flush with a key or value of 4 GiB or more, or one
    that would need a file id >= 2^32 or an offset >= 2^64 (the code truncates with `as u32` /
    wraps); a compaction naming a table that is not live or keeping an entry its inputs do not hold. *)
@@ -47,7 +58,8 @@ Import ListNotations.
 Record vfile := { vf_id : N; vf_bytes : list byte; vf_synced : bool }.
 Record tentry := { te_key : list byte; te_enc : list byte; te_orig : option (list byte) }.
 Record vtable := { tb_id : N; tb_entries : list tentry; tb_oldest : N }.
-Definition vcache := list ((N * N) * list byte).
+(* (file id, offset) |-> (checksum of the pointer the value was read for, value) *)
+Definition vcache := list ((N * N) * (N * list byte)).
 Record vcfg := { cf_threshold : N; cf_max : N; cf_level : N; cf_index : bool }.
 Record vstate := {
   vs_files : list vfile; vs_active : N; vs_next : N;
@@ -130,7 +142,7 @@ Definition index_insert (ix : list tentry) (e : tentry) : list tentry :=
                      then {| te_key := te_key x; te_enc := te_enc e; te_orig := te_orig e |} else x) ix
   else ix ++ [e].
 
-Definition vcache_get (c : vcache) (f o : N) : option (list byte) :=
+Definition vcache_get (c : vcache) (f o : N) : option (N * list byte) :=
   match find (fun e => N.eqb (fst (fst e)) f && N.eqb (snd (fst e)) o) c with
   | Some e => Some (snd e)
   | None => None
@@ -151,6 +163,10 @@ Variable cfg : vcfg.
    `snapshot_tracker.first().is_none()`?  Generated: VlogParams.VLOG_CLEANUP_CHECKS_READERS (true in the repaired tree);
    false is the rule before the repair of C11-N1, kept so that its refutation is a statement about the same functions *)
 Variable chk : bool.
+(* does VLog::get compare the cached checksum and the value length with the pointer before serving a block-cache hit?
+   Generated: VlogParams.VLOG_CACHE_HIT_CHECKED (true in the repaired tree); false is the code before the repair of F41,
+   kept so that its refutation is a statement about the same functions *)
+Variable hck : bool.
 
 (* flush_immutable_to_sst_with_log_number / Compactor::update_manifest: with the test, the clean-up is skipped while any
    reader is registered (every transaction that can read, for its whole life); a later flush / compaction or the next
@@ -261,19 +277,23 @@ Definition vs_reopen (keep_cache : bool) (st : vstate) : vstate :=
   vs_cleanup {| vs_files := fs; vs_active := fst an; vs_next := snd an; vs_tables := vs_tables st;
                 vs_index := vs_index st; vs_cache := if keep_cache then vs_cache st else []; vs_readers := [] |}.
 
-(* reads *)
+(* reads.  VLog::get: `if let Some((cached_value, checksum)) = get_vlog_entry(file_id, offset) { if checksum ==
+   pointer.checksum && cached_value.len() == pointer.value_size as usize { return Ok(cached_value) } }`, then the file *)
+Definition vs_hit_ok (p : vpointer) (e : N * list byte) : bool :=
+  if hck then N.eqb (fst e) (vpt_crc p) && N.eqb (nlen (snd e)) (vpt_vsize p) else true.
+Definition vs_get_file (st : vstate) (p : vpointer) : option (list byte) * vcache :=
+  match find_file (vpt_file p) (vs_files st) with
+  | None => (None, vs_cache st)
+  | Some f =>
+    match vlog_read crc (cf_level cfg) (vf_bytes f) p with
+    | Some v => (Some v, ((vpt_file p, vpt_offset p), (vpt_crc p, v)) :: vs_cache st)
+    | None => (None, vs_cache st)
+    end
+  end.
 Definition vs_get (st : vstate) (p : vpointer) : option (list byte) * vcache :=
   match vcache_get (vs_cache st) (vpt_file p) (vpt_offset p) with
-  | Some v => (Some v, vs_cache st)
-  | None =>
-    match find_file (vpt_file p) (vs_files st) with
-    | None => (None, vs_cache st)
-    | Some f =>
-      match vlog_read crc (cf_level cfg) (vf_bytes f) p with
-      | Some v => (Some v, ((vpt_file p, vpt_offset p), v) :: vs_cache st)
-      | None => (None, vs_cache st)
-      end
-    end
+  | Some e => if vs_hit_ok p e then (Some (snd e), vs_cache st) else vs_get_file st p
+  | None => vs_get_file st p
   end.
 Definition vs_resolve (st : vstate) (enc : list byte) : option (list byte) * vcache :=
   match venc_classify enc with
@@ -319,4 +339,29 @@ Fixpoint vs_run (ops : list vop) (st : vstate) : option vstate :=
   | [] => Some st
   | o :: r => match vs_step st o with Some st' => vs_run r st' | None => None end
   end.
+
+(* ---- the machine under damage (property C16) *)
+Inductive dop :=
+| DOp (o : vop)
+| DFiles (fs : list vfile) (active next : N)   (* the directory and the writer ids become ANYTHING *)
+| DGet (p : vpointer).                          (* a read through ANY pointer; the cache is filled as by every read *)
+Definition set_dir (st : vstate) (fs : list vfile) (active next : N) : vstate :=
+  {| vs_files := fs; vs_active := active; vs_next := next; vs_tables := vs_tables st;
+     vs_index := vs_index st; vs_cache := vs_cache st; vs_readers := vs_readers st |}.
+Definition ds_step (st : vstate) (d : dop) : option vstate :=
+  match d with
+  | DOp o => vs_step st o
+  | DFiles fs a n => Some (set_dir st fs a n)
+  | DGet p => Some (set_cache st (snd (vs_get st p)))
+  end.
+Fixpoint ds_run (ds : list dop) (st : vstate) : option vstate :=
+  match ds with
+  | [] => Some st
+  | d :: r => match ds_step st d with Some st' => ds_run r st' | None => None end
+  end.
+(* the damage of finding F41: file `id` keeps its first n bytes only (a DFiles step; the next open — VReopen — makes the
+   highest-numbered file the active writer again, appends continue at ITS end, i.e. at the cut position) *)
+Definition cut_file (id : N) (n : nat) (fs : list vfile) : list vfile :=
+  update_file id (fun f => {| vf_id := vf_id f; vf_bytes := firstn n (vf_bytes f); vf_synced := vf_synced f |}) fs.
+Definition d_cut (id : N) (n : nat) (st : vstate) : dop := DFiles (cut_file id n (vs_files st)) (vs_active st) (vs_next st).
 End VlogMachine.
